@@ -1182,8 +1182,22 @@ def _register_capabilities_hooks(converter: cattrs.Converter) -> cattrs.Converte
         ),
     ]
     for type_, hook in structure_hooks:
-        converter.register_structure_hook(type_, hook)
+        _register_union_structure_hook(converter, type_, hook)
     return converter
+
+
+def _register_union_structure_hook(
+    converter: cattrs.Converter, type_: Any, hook: Any
+) -> None:
+    converter.register_structure_hook(type_, hook)
+    # cattrs consults hooks registered for a union only after every predicate
+    # registered on the converter. A converter handed in by the user may
+    # already carry one that matches unions (the union passthrough of the
+    # `cattrs.preconf` converters does), so register an exact-match predicate too.
+    converter.register_structure_hook_func(
+        lambda t, type_=type_: t == type_,
+        hook,
+    )
 
 
 def _register_required_structure_hooks(
@@ -1347,7 +1361,7 @@ def _register_required_structure_hooks(
         ]
 
     for type_, hook in STRUCTURE_HOOKS:
-        converter.register_structure_hook(type_, hook)
+        _register_union_structure_hook(converter, type_, hook)
 
     return converter
 
